@@ -343,10 +343,10 @@ def check(prop, tier, seed):
         inputs.extend(extra_in)
         gen_stats.append({"name": "lifted_copies", "vectors": len(extra_in)})
     if plan.get("lift_inst_every"):
-        # the same relabelling for the instance-level action `evaluate` (modes A-D)
+        # the same relabelling for the instance-level actions evaluate / commute / evaluate_samples (modes A-D)
         k, extra_in = 0, []
         for v in inputs:
-            if v.get("ev") == "evaluate" and "lift" not in v.get("in", {}):
+            if v.get("ev") in ("evaluate", "commute", "evaluate_samples") and "lift" not in v.get("in", {}):
                 k += 1
                 if k % plan["lift_inst_every"] == 0:
                     w = json.loads(json.dumps(v))
